@@ -9,6 +9,7 @@ import (
 	"os"
 	"os/exec"
 	"path/filepath"
+	"strings"
 	"testing"
 	"time"
 
@@ -225,6 +226,91 @@ func TestC02OtherProcesses(t *testing.T) {
 		}
 		c := childCompileCase{GOARCH: cfg.goarch, Outer: cfg.outer, Corpus: corpus, Seed: seed}
 		if !ev.CheckOne(t, "C02", "other-process", c, check) {
+			return
+		}
+	}
+}
+
+// ---- C14: the parsers in other processes ----
+
+type c14ChildCase struct {
+	GOARCH string `json:"goarch"`
+	Outer  string `json:"outer"`
+}
+
+// c14ParseLines renders, from the vendored constants, what `digest -parse` has to print.
+func c14ParseLines() []string {
+	var out []string
+	title := func(s string) string {
+		if s == "" {
+			return s
+		}
+		return strings.ToUpper(s[:1]) + s[1:]
+	}
+	for _, n := range []string{"kill_thread", "kill_process", "trap", "errno", "trace", "log", "allow", "nope", "permit", ""} {
+		for _, in := range []string{n, strings.ToUpper(n), title(n)} {
+			v, ok := oracle.Actions()[n]
+			if !ok {
+				out = append(out, fmt.Sprintf("action %q = error", in))
+				continue
+			}
+			out = append(out, fmt.Sprintf("action %q = %#x printed %q back %#x true marshalled %q back %#x true", in, v, n, v, n, v))
+		}
+	}
+	for _, n := range []string{"Equal", "NotEqual", "GreaterThan", "LessThan", "GreaterOrEqual", "LessOrEqual", "BitsSet", "BitsNotSet", "Nope"} {
+		for _, in := range []string{n, strings.ToUpper(n), strings.ToLower(n)} {
+			if n == "Nope" {
+				out = append(out, fmt.Sprintf("operation %q = error", in))
+				continue
+			}
+			out = append(out, fmt.Sprintf("operation %q = %s", in, n))
+		}
+	}
+	return append(out, "done")
+}
+
+func checkC14Child(raw json.RawMessage) (ev.Result, error) {
+	var c c14ChildCase
+	if err := json.Unmarshal(raw, &c); err != nil {
+		return ev.Result{}, ev.Inconclusivef("bad case: %v", err)
+	}
+	name := "digest"
+	if c.GOARCH == "386" {
+		name = "digest_386"
+	}
+	bin, err := kchild.Bin(name)
+	if err != nil {
+		return ev.Result{}, ev.Inconclusivef("%v", err)
+	}
+	ctx, cancel := context.WithTimeout(context.Background(), 60*time.Second)
+	defer cancel()
+	cmd := exec.CommandContext(ctx, bin, "-parse")
+	cmd.Env = append(os.Environ(), "DIGEST_OUTER="+c.Outer)
+	out, err := cmd.Output()
+	if err != nil {
+		return ev.Result{}, ev.Inconclusivef("helper: %v (%s)", err, clip(string(out), 300))
+	}
+	got := strings.Split(strings.TrimSpace(string(out)), "\n")
+	want := c14ParseLines()
+	where := fmt.Sprintf("a linux/%s process", c.GOARCH)
+	if c.Outer != "" {
+		where += " under an enclosing filter (" + c.Outer + ")"
+	}
+	if len(got) != len(want) {
+		return ev.Result{}, ev.Inconclusivef("helper printed %d lines, expected %d", len(got), len(want))
+	}
+	for i := range want {
+		if got[i] != want[i] {
+			return ev.Result{}, fmt.Errorf("in %s the parsers answer\n  %s\nthe documented constants demand\n  %s", where, got[i], want[i])
+		}
+	}
+	return ev.Result{Classes: []string{"parse:other-process", "build:" + c.GOARCH, "outer:" + c.Outer}, NonTrivial: c.Outer != "" || c.GOARCH != "amd64", Sub: len(want)}, nil
+}
+
+func TestC14OtherProcesses(t *testing.T) {
+	ev.Register("C14", "parse-other-process", checkC14Child)
+	for _, cfg := range childConfigs {
+		if !ev.CheckOne(t, "C14", "parse-other-process", c14ChildCase{GOARCH: cfg.goarch, Outer: cfg.outer}, checkC14Child) {
 			return
 		}
 	}
